@@ -223,11 +223,11 @@ PROPS = {
         'level': 'exploration',
         'technique': 'reference-model monitor for inheritance: unique sentinel tokens in every block body make the rendered text the resolution trace; model resolver (most-derived definition, super() to the nearest defining ancestor) vs real renders and render_block',
         'claim': 'Chains of 1-8 templates; per level a random subset of 6 block names nested up to 3 deep, inside filter sections and set-blocks, child blocks introduced inside overridden blocks, ancestors that skip a block, super() at several levels, super() without any ancestor definition (must be an error), '
-                 'orphan top-level child blocks (must be rejected), shapes that recurse without bound (must be an error), registered as one shuffled batch, one call per template, or a batch followed by re-adding a middle template. Every leaf of every chain is rendered and compared; '
+                 'orphan top-level child blocks (must be rejected), shapes that recurse without bound (must be an error), registered as one shuffled batch, one call per template, a batch followed by re-adding a middle template, a batch in which one template first extends a decoy root and is then re-registered under its real parent, or (with a fallback prefix) under a decoy root that the real root, registered last, shadows. Every leaf of every chain is rendered and compared; '
                  'render_block(t, b) is compared with the text the model attributes to b for every block the full render reaches.',
         'note': 'block text is compared before enclosing filter sections transform it (what the block itself writes); renders run in a supervised child process',
         'rule': "one evaluation = one registration, render or render_block; a cell = (chain length, leaf level, block nesting, number of super() calls, blocks inside captures or not, model outcome)",
-        'must_observe': ['leaf_renders_compared', 'block_renders_compared', 'orphan_block_sets', 'both_refuse'],
+        'must_observe': ['leaf_renders_compared', 'block_renders_compared', 'orphan_block_sets', 'both_refuse', 'chains_reparented_after_registration'],
     },
     'C05': {
         'level': 'exploration',
